@@ -212,7 +212,6 @@ func (m *Muxer) WriteData(d *MuxerData) (int, error) {
 		pktLen := 1 + mpegTsPacketHeaderSize // sync byte + header
 		pkt := Packet{
 			Header: PacketHeader{
-				ContinuityCounter:         uint8(ctx.cc.inc()),
 				HasAdaptationField:        writeAf,
 				HasPayload:                false,
 				PayloadUnitStartIndicator: false,
@@ -246,7 +245,19 @@ func (m *Muxer) WriteData(d *MuxerData) (int, error) {
 			pkt.Header.HasPayload = true
 		}
 
+		if !pkt.Header.HasPayload {
+			// The adaptation field leaves no room for the PES header: it's sent in a packet of its own. A packet
+			// without payload doesn't advance the continuity counter, it repeats the one of the previous packet
+			pkt.Header.ContinuityCounter = uint8(ctx.cc.get()) & 0xf
+			n, err = writePacket(m.bitsWriter, &pkt, m.packetSize)
+			if err != nil {
+				return bytesWritten, err
+			}
+			bytesWritten += n
+		}
+
 		if pkt.Header.HasPayload {
+			pkt.Header.ContinuityCounter = uint8(ctx.cc.inc())
 			m.buf.Reset()
 			if d.PES.Header.StreamID == 0 {
 				d.PES.Header.StreamID = ctx.es.StreamType.ToPESStreamID()
